@@ -465,6 +465,13 @@ def nodeCmp (c : Ctx) (l r : Bytes) (sl sr : Bool) (o : Op) : Bool × Option Err
       | none => (false, some .unknownType, c1)
       | some t => let (b, c2) := c1.cmp l o t; (b, none, c2)
 
+/-- A counter-loop bound given as text (`if2int` → `text2int`). -/
+def textBound (s : Bytes) (c1 : Ctx) : Except Err Int × Ctx :=
+  if s.isEmpty then (.ok 0, c1) else
+  match parseInt64Lit s with
+  | some n => (.ok n, c1)
+  | none => (.error .wrongLoopLim, { c1 with err := some .wrongLoopLim })
+
 /-- `cloopRange`: initial value / bound of a counter loop. -/
 def cloopRange (c : Ctx) (static : Bool) (b : Bytes) : Except Err Int × Ctx :=
   if static then
@@ -479,8 +486,10 @@ def cloopRange (c : Ctx) (static : Bool) (b : Bytes) : Except Err Int × Ctx :=
     | none => match v with
       | .int n => (.ok n, c1)
       | .uint n => (.ok n, c1)
-      | .bytes s => (.ok ((parseIntLit s).getD 0), c1)
-      | .str s => (.ok ((parseIntLit s).getD 0), c1)
+      -- text: empty is 0; text that is not an integer (or is out of range) is a wrong bound (repair: `text2int`;
+      -- the 0 / MaxInt64 that ParseInt returns next to its error used to be taken for the bound)
+      | .bytes s => textBound s c1
+      | .str s => textBound s c1
       | _ => (.error .wrongLoopLim, { c1 with err := some .wrongLoopLim })
 
 def loopAllows (o : Op) (v lim : Int) : Option Bool :=
